@@ -207,6 +207,19 @@ pub fn prefill(quick: bool) -> Vec<Scenario> {
             ],
         )
         .prefill(0, 2),
+        // a disposed prefill whose worker is lost before it answers, then everything is canceled
+        Scenario::new(
+            "prefill-hiprio-kill-cancel-q",
+            vec![w(1), w(1).spare()],
+            vec![
+                vec![sub(arr(&[0, 1, 2], 1))],
+                vec![sub(arr(&[0], 1).prio(5))],
+                vec![Req::CancelAll],
+            ],
+        )
+        .prefill(1, 1)
+        .budgets(1, 0, 0, 1)
+        .depth(8),
         // worker loss / join while a prefill is being disposed (bounded prefix of the thorough scenario)
         Scenario::new(
             "prefill-hiprio-kill-q",
@@ -248,6 +261,7 @@ pub fn prefill(quick: bool) -> Vec<Scenario> {
 }
 
 pub fn redirect(quick: bool) -> Vec<Scenario> {
+    #[allow(unused_mut)]
     let mut v = vec![
         // a second worker joins while tasks are pre-sent to the first: retract + redirect
         Scenario::new("redirect-join", vec![w(1), w(1).spare()], vec![vec![sub(arr(&[0, 1, 2], 1))]])
@@ -262,6 +276,19 @@ pub fn redirect(quick: bool) -> Vec<Scenario> {
         .budgets(0, 0, 1, 1)
         .cap(200_000),
     ];
+    // a scheduling round with a priority cut while a redirect to the blocker-capable worker is pending
+    v.push(
+        Scenario::new(
+            "redirect-gap",
+            vec![w(1), w(4).spare()],
+            vec![
+                vec![sub(arr(&[0, 1, 2], 1)), sub(arr(&[0], 3).prio(5)), sub(arr(&[0, 1], 1).prio(-1))],
+            ],
+        )
+        .prefill(1, 1)
+        .budgets(0, 0, 1, 1)
+        .depth(9),
+    );
     if !quick {
         v.push(
             Scenario::new("redirect-join-kill", vec![w(1), w(1).spare()], vec![vec![sub(arr(&[0, 1, 2], 1))]])
@@ -394,6 +421,25 @@ pub fn mn(quick: bool) -> Vec<Scenario> {
         )
         .budgets(0, 1, 0, 1),
     ];
+    // a multi-node task is placed on a worker that is free but still holds a pre-sent task
+    v.push(
+        Scenario::new(
+            "mn-over-prefilled",
+            vec![w(1), w(1).spare()],
+            vec![
+                vec![
+                    sub(arr(&[0], 1)),
+                    sub(arr(&[0, 1], 1)),
+                    sub(SubmitSpec::array(&[0], RqSpec::nodes(2)).prio(5)),
+                ],
+                vec![Req::Cancel(1)],
+            ],
+        )
+        .prefill(1, 1)
+        .budgets(0, 0, 1, 1)
+        .depth(if quick { 13 } else { 0 })
+        .cap(1_500_000),
+    );
     if !quick {
         v.push(
             Scenario::new(
@@ -438,6 +484,15 @@ pub fn maxfails(quick: bool) -> Vec<Scenario> {
             vec![vec![sub(arr(&[0, 1], 1).max_fails(0).crash_limit("1"))]],
         )
         .budgets(1, 0, 0, 1),
+        // max-fails trips while a pre-sent task of the job is being retracted without a new target
+        // and the worker has already switched to it
+        Scenario::new(
+            "maxfails-0-prefill-hiprio",
+            vec![w(1)],
+            vec![vec![sub(arr(&[0, 1, 2], 1).max_fails(0))], vec![sub(arr(&[0], 1).prio(5))]],
+        )
+        .prefill(1, 1)
+        .budgets(0, 1, 0, 1),
         Scenario::new(
             "maxfails-0-crashlimit",
             vec![w(1), w(1)],
